@@ -91,7 +91,7 @@ pub fn inject_error(files: &Files, rng: &mut Rng) -> (&'static str, Files) {
     let kind = match rng.below(7) {
         0 => *rng.pick(&[0usize, 1, 9, 10, 11, 11]),
         1 => *rng.pick(&[2usize, 3]),
-        2 => 4,
+        2 => *rng.pick(&[4usize, 4, 14]),
         3 => *rng.pick(&[5usize, 5, 12, 13]),
         4 => *rng.pick(&[6usize, 6, 12]),
         5 => *rng.pick(&[7usize, 7, 12]),
@@ -149,6 +149,13 @@ pub fn inject_error(files: &Files, rng: &mut Rng) -> (&'static str, Files) {
             t.push_str(&POISON_TRAILERS[k].1.replace('\n', nl));
             t.push_str(nl);
             POISON_TRAILERS[k].0
+        }
+        14 => {
+            // an import whose path leads *through* a regular file: it cannot be found
+            f.insert("zz_plain_file.oal".into(), format!("let zz_plain = num;{nl}"));
+            let t = f.get_mut("main.oal").unwrap();
+            *t = format!("use \"zz_plain_file.oal/inner.oal\";{nl}{}", t);
+            "import"
         }
         13 => {
             // an imported module that holds nothing but a resource, and that one is wrong
